@@ -67,3 +67,24 @@ Proof.
   intros Hne. cbn [seq_elems sched_next src_peek].
   destruct e; try reflexivity. exfalso; eapply Hne; reflexivity.
 Qed.
+
+(* A complex mapping key is recorded and replayed through the key type's own deserializer: whatever that type
+   leaves unread of the recorded node is an error of the mapping, never dropped (F59, fixed) -- for maps ... *)
+Lemma map_key_surplus_is_error f c kt vt ow m x pairs fg kevents kemn kloc m' x' kv xr e xr' :
+  ma_next_key f c m x = KKey kevents kemn kloc m' x' ->
+  deser f c kemn kt (replay_new kevents) = DOk kv xr ->
+  src_peek xr = NSome e xr' ->
+  map_loop (S f) c (MMap kt vt ow) m x pairs fg = DErr (Err E_Unexpected (ev_loc e)).
+Proof.
+  intros Hk Hd Hp. cbn [map_loop]. rewrite Hk. cbn beta iota. rewrite Hd, Hp. reflexivity.
+Qed.
+
+(* ... and for the field names of structs *)
+Lemma struct_key_surplus_is_error f c fields deny m x pairs fg kevents kemn kloc m' x' name xr e xr' :
+  ma_next_key f c m x = KKey kevents kemn kloc m' x' ->
+  deser f c kemn TStr (replay_new kevents) = DOk (VStr name) xr ->
+  src_peek xr = NSome e xr' ->
+  map_loop (S f) c (MStruct fields deny) m x pairs fg = DErr (Err E_Unexpected (ev_loc e)).
+Proof.
+  intros Hk Hd Hp. cbn [map_loop]. rewrite Hk. cbn beta iota. rewrite Hd, Hp. reflexivity.
+Qed.
